@@ -124,7 +124,7 @@ def parse_diagnostics(stderr):
 
 # Z3 search heuristics only (no effect on soundness): eager datatype case splits keep the control-flow heavy query of
 # factor_impl (14 early returns over Option/tuple/enum matches) at ~1 s instead of > 180 s
-SMT_OPTIONS = ['--smt-option', 'smt.dt_lazy_splits=0']
+SMT_OPTIONS = ['--smt-option', 'smt.dt_lazy_splits=2']
 
 
 def run_verus(ws, modules=None, rlimit=None, threads=8, extra=None, timeout=3600):
